@@ -121,15 +121,26 @@ func TestSim(t *testing.T) {
 // does not finish (a goroutine blocked in a way the bubble does not see as
 // durable, e.g. on a library mutex) gets all stacks dumped and the worker
 // exits; the driver reports that as harness trouble (exit 2), never as a violation.
-func runIn(t *testing.T, name string, f func(t *testing.T)) {
+func runIn(t *testing.T, name string, sc props.Scenario, f func(t *testing.T)) {
 	done := make(chan struct{})
+	// a scenario that asks for a larger step cap (C02's bulk scenarios) gets a
+	// proportionally longer watchdog, 4 minutes at most
+	limit := 60 * time.Second
+	if sc != nil {
+		if ms := sc.Cfg().MaxSteps; ms > 50000 {
+			limit = time.Duration(ms/50000) * 60 * time.Second
+			if limit > 4*time.Minute {
+				limit = 4 * time.Minute
+			}
+		}
+	}
 	go func() {
 		select {
 		case <-done:
-		case <-time.After(60 * time.Second):
+		case <-time.After(limit):
 			buf := make([]byte, 1<<20)
 			n := runtime.Stack(buf, true)
-			fmt.Fprintf(os.Stderr, "verif worker: run %s exceeded 60s of wall clock; goroutines:\n%s\n", name, buf[:n])
+			fmt.Fprintf(os.Stderr, "verif worker: run %s exceeded %v of wall clock; goroutines:\n%s\n", name, limit, buf[:n])
 			os.Exit(3)
 		}
 	}()
@@ -179,7 +190,7 @@ func batch(t *testing.T, spec *Spec) {
 		sc := prop.Gen(seed, spec.Tier)
 		var res props.RunResult
 		keepSites := i%16 == 0
-		runIn(t, fmt.Sprintf("s%d", seed), func(t *testing.T) {
+		runIn(t, fmt.Sprintf("s%d", seed), sc, func(t *testing.T) {
 			props.RunOne(t, spec.Prop, seed, sc, props.RunOpts{KeepSites: keepSites, KeepTrace: spec.KeepTrace}, &res)
 		})
 		collectRaces(&res)
@@ -228,7 +239,7 @@ func batch(t *testing.T, spec *Spec) {
 		if spec.Twice > 0 && i%spec.Twice == 0 && res.HarnessErr == "" {
 			var res2 props.RunResult
 			sc2 := prop.Gen(seed, spec.Tier)
-			runIn(t, fmt.Sprintf("s%d-again", seed), func(t *testing.T) {
+			runIn(t, fmt.Sprintf("s%d-again", seed), sc2, func(t *testing.T) {
 				props.RunOne(t, spec.Prop, seed, sc2, props.RunOpts{}, &res2)
 			})
 			sum.DetChecked++
@@ -238,7 +249,7 @@ func batch(t *testing.T, spec *Spec) {
 					for j := 0; j < 2; j++ {
 						var r3 props.RunResult
 						sc3 := prop.Gen(seed, spec.Tier)
-						runIn(t, fmt.Sprintf("s%d-dbg%d", seed, j), func(t *testing.T) {
+						runIn(t, fmt.Sprintf("s%d-dbg%d", seed, j), sc3, func(t *testing.T) {
 							props.RunOne(t, spec.Prop, seed, sc3, props.RunOpts{KeepTrace: true}, &r3)
 						})
 						os.WriteFile(fmt.Sprintf("%s/det-%d-%d.txt", dir, seed, j), []byte(strings.Join(r3.Trace, "\n")+"\n"+r3.TraceHash+" "+res.TraceHash+" "+res2.TraceHash+"\n"), 0o644)
@@ -283,7 +294,7 @@ func hashes(t *testing.T, spec *Spec) {
 		seed := RunSeed(spec.SeedBase, index)
 		sc := prop.Gen(seed, spec.Tier)
 		var res props.RunResult
-		runIn(t, fmt.Sprintf("s%d", seed), func(t *testing.T) {
+		runIn(t, fmt.Sprintf("s%d", seed), sc, func(t *testing.T) {
 			props.RunOne(t, spec.Prop, seed, sc, props.RunOpts{}, &res)
 		})
 		collectRaces(&res)
@@ -345,7 +356,7 @@ func sameViolation(vs []sim.Violation, want sim.Violation) bool {
 func replay(t *testing.T, spec *Spec) {
 	rf, _, sc := loadReplay(t, spec.Replay)
 	var res props.RunResult
-	runIn(t, "replay", func(t *testing.T) {
+	runIn(t, "replay", sc, func(t *testing.T) {
 		if os.Getenv("VERIF_REPLAY_FRESH") != "" {
 			// debugging aid: re-run from the seed instead of the tape
 			props.RunOne(t, rf.Property, rf.Seed, sc, props.RunOpts{KeepTrace: os.Getenv("VERIF_REPLAY_FRESH") == "trace"}, &res)
@@ -376,7 +387,7 @@ func minimize(t *testing.T, spec *Spec) {
 	run1 := func(sc props.Scenario, seed uint64, tape []uint32, replay bool) props.RunResult {
 		var res props.RunResult
 		n++
-		runIn(t, fmt.Sprintf("m%d", n), func(t *testing.T) {
+		runIn(t, fmt.Sprintf("m%d", n), sc, func(t *testing.T) {
 			props.RunOne(t, rf.Property, seed, sc, props.RunOpts{Tape: tape, Replay: replay}, &res)
 		})
 		collectRaces(&res)
